@@ -99,6 +99,20 @@ func scenC18(e *Env) func() {
 		}
 		p.CloseIdleAtMs = append(p.CloseIdleAtMs, at)
 	}
+	if e.Chance(10) {
+		// flavour: one connection idle, another one released at the very instant the idle list
+		// is swept (CloseIdleConnections), and a later call that uses whatever the pool holds
+		d := Pick(e, 50, 200)
+		p.MaxConns, p.TLS, p.IdleMs, p.ConnDurMs = Pick(e, 2, 3), false, 10000, 0
+		for i := range p.Dials {
+			p.Dials[i] = c18Dial{Kind: "ok"}
+		}
+		ok := func(id string, gap, delay int) c18Call {
+			return c18Call{ID: id, GapMs: gap, Method: "GET", Act: srvAction{Status: 200, BodyLen: 10, Framing: "cl", DelayMs: delay}}
+		}
+		p.Callers = [][]c18Call{{ok("0-0", 0, 0)}, {ok("1-0", 0, d)}, {ok("2-0", d+100, 0), ok("2-1", 0, 0)}}
+		p.CloseIdleAtMs = []int{d}
+	}
 	e.Sample = p
 	e.Cfg.Holds, e.Cfg.HoldMax = Pick(e, 0, 0, 2), 100*time.Millisecond
 	return func() { c18Run(e, p) }
